@@ -472,6 +472,14 @@ func renameExpr(e *Expr, ren map[string]string) *Expr {
 		}
 	}
 	n.Args = nil
+	n.Trig = nil
+	for _, g := range e.Trig {
+		var ng []*Expr
+		for _, t := range g {
+			ng = append(ng, renameExpr(t, ren))
+		}
+		n.Trig = append(n.Trig, ng)
+	}
 	for _, a := range e.Args {
 		n.Args = append(n.Args, renameExpr(a, ren))
 	}
